@@ -416,6 +416,10 @@ class List(list, base.Symbolic, pg_typing.CustomTyping):
       value = value.value
       if index < 0:
         index = max(0, index + len(self))
+      # NOTE: a value that already lives in a tree is always copied on
+      # insertion, even when it is inserted at the position it occupies.
+      if isinstance(value, base.Symbolic) and value.sym_parent is not None:
+        value = value.clone()
 
 
     old_value = pg_typing.MISSING_VALUE
